@@ -802,9 +802,15 @@ class BaseDeletionLine(MatchLine):
         version: Version,
         pos: int = 0,
     ) -> Dict:
-        match_pattern = cls.identifier_pattern.search(matchline, pos=pos)
+        # The identifier ("-deletion.") has to follow the score note directly; looking
+        # for it anywhere in the line would also find it inside an identifier of a line
+        # of another kind (e.g. the anchor "a-deletion." of a trailing score note).
+        snote_pattern = snote_class.pattern.search(matchline, pos)
 
-        if match_pattern is None:
+        if (
+            snote_pattern is None
+            or cls.identifier_pattern.match(matchline, snote_pattern.end()) is None
+        ):
             raise MatchError("Input match line does not fit the expected pattern.")
         snote = snote_class.from_matchline(matchline, version=version)
 
@@ -850,7 +856,10 @@ class BaseInsertionLine(MatchLine):
         version: Version,
         pos: int = 0,
     ) -> Dict:
-        match_pattern = cls.identifier_pattern.search(matchline, pos=pos)
+        # The identifier ("insertion-") has to start the line; looking for it anywhere in
+        # the line would also find it inside an identifier of a line of another kind
+        # (e.g. the anchor "insertion-1" of an ornament).
+        match_pattern = cls.identifier_pattern.match(matchline, pos)
 
         if match_pattern is None:
             raise MatchError("Input match line does not fit the expected pattern.")
